@@ -312,6 +312,11 @@ func c11Run(c c11Case) explore.Result {
 			}
 			st2 = step(l.Bytes)
 		}
+		// a plaintext connection never has a transport deadline armed while it waits for the client;
+		// one left armed after the upgrade makes the TLS session die later on its own
+		if rd, wd := mc.Deadlines(); st2 == memnet.Parked && (!rd.IsZero() || !wd.IsZero()) {
+			res.Fail("deadline-left-armed", fmt.Sprintf("%s: the upgraded connection is idle with a transport deadline still armed (read %v, write %v); the plaintext equivalent has none", c, rd, wd))
+		}
 		mu.Lock()
 		got, _ := harness.CanonTranscript(append([]byte(nil), plain...))
 		mu.Unlock()
